@@ -55,6 +55,10 @@ def cases(tier, seed):
     for j, (cls, n) in enumerate(real):
         for model in (["scale"] if tier == "quick" or j >= 4 else ["scale", "conv"]):
             out.append({"kind": "real", "cls": cls, "n": n, "model": model, "lr": [0.0, 1e-7][j % 2]})
+    # histories that improve for a while and then plateau (the loss cannot reach 0): the stop epoch is whatever the
+    # automaton derives from the observed losses, the returned model must be the one of the best epoch
+    for j, (cls, n) in enumerate([("TrainLoss", 1), ("ValLoss", 0)] + ([("TrainLoss", 3), ("ValLoss", 2), ("TrainLoss", 0)] if tier == "thorough" else [])):
+        out.append({"kind": "real", "cls": cls, "n": n, "model": "scale", "lr": [0.05, 0.1][j % 2], "improving": True})
     return out
 
 
@@ -272,9 +276,9 @@ def run_real(case, ctx):
         cond = getattr(ml, cls)(patience=n, min_delta=1e-2)
         auto = rmisc.PatienceAutomaton(n, 1e-2)
         monitored = "train_loss" if cls == "TrainLoss" else "val_loss"
-        expect_calls = n + 3
+        expect_calls = None if case.get("improving") else n + 3
     _mon.take()
-    _mon.register(cond, auto, monitored, abort_on_miss=True, max_calls=n + 25)
+    _mon.register(cond, auto, monitored, abort_on_miss=True, max_calls=(400 if case.get("improving") else n + 25))
     calls_before = _mon.calls
     viols = []
     returned = None
@@ -293,11 +297,15 @@ def run_real(case, ctx):
         if returned is None:
             viols.append(viol("train-no-result", "ml.train returned nothing"))
         else:
-            if calls != expect_calls:
+            if expect_calls is None:
+                improved = sum(1 for a, b in zip(tr, tr[1:]) if a["loss"] is not None and b["loss"] is not None and b["loss"] < a["loss"] - 1e-2)
+                if improved < 2:
+                    viols.append(viol("harness-history-not-improving", f"the 'improving' history improved only {improved} times (harness problem)", trace=tr))
+            elif calls != expect_calls:
                 viols.append(viol("stop-call-count", f"{cls}: training made {calls} stop() calls, the specification implies {expect_calls}", trace=tr))
             if returned is not auto.best_model:
                 viols.append(viol("best-model-mismatch", f"{cls}: ml.train did not return the model of the best epoch / last epoch", trace=tr))
-    key = {k: case[k] for k in ("cls", "n", "model", "lr")}
+    key = {k: case.get(k) for k in ("cls", "n", "model", "lr", "improving")}
     return result({"kind": "real", **key}, viols, True, evals=calls, obs={"stop_calls": calls, "real_runs": 1}, hist={"cls": cls, "kind": "real", "rep": tr[-1]["rep"] if tr else "?"}, sample={"case": case, "trace": tr[:8]})
 
 
